@@ -16,7 +16,10 @@
    C16_builder_write_fault (quantified over arbitrary part encodings, hence over
    these); the correspondence run compares all three sinks on every case.
 
-   NOT proved here, checked on every case of the correspondence run instead
+   (Status after the completion round: C10_checksums_verify, C10_transport_rfc_layout and
+   C10_next_protocol_fields below prove the two consistency items listed here; see the
+   parse-back section for what is proved of C10_parse_back.)
+   NOT proved in the first round, checked on every case of the correspondence run
    (crate parser = wire reference decoder of C03 = `expected` view of Builder/Spec.v;
    independent RFC reference encoder and RFC 1071 verification in tools/props/c10.py):
      C10_parse_back (full):  forall c p bs, cfg_wf c = true -> parse_pre c (len p) = true ->
@@ -30,6 +33,8 @@ From EP Require Import Base.Bytes Checksum.Spec Checksum.Model.
 From EP Require Roundtrip.Common Roundtrip.Tcp Roundtrip.Ipv4 ExtChain.Spec ExtChain.Model BitFields.Model.
 From EP Require Import Parse.Types Parse.View Parse.WireSpec.
 From EP Require Import Builder.Model Builder.Spec Builder.Proofs Builder.ProofsCk.
+From EP Require Checksum.ProtoTypes Checksum.ProtoSpec.
+From EP Require Import Builder.SpecX Builder.ProofsTr Builder.ProofsNx.
 Local Open Scope N_scope.
 
 (* ---- outcome: encodable configurations give exactly size() bytes, the others the documented error *)
@@ -158,6 +163,71 @@ Theorem C10_parse_back_tcp_partial : forall e c p bs t,
 Proof. exact tcp_decodes. Qed.
 Print Assumptions C10_parse_back_tcp_partial.
 
+(* ---- all transport checksums verify (UDP, TCP, ICMPv4, ICMPv6 -- the modelled kinds) ----
+   seg = the bytes from the transport header to the end of the packet; ck_pseudo = the
+   pseudo header of RFC 768 / 9293 3.1 / 8200 8.1 / 4443 2.3 built from the configured
+   addresses and the ACTUAL length of seg ([] for ICMPv4; None = no checksum: raw
+   payload, ARP, or the refused ICMPv6-in-IPv4).  The receiver's RFC 1071 sum over pseudo
+   header ++ segment folds to 0xffff, and the 16 bit field at the RFC's offset equals the
+   RFC value over the same bytes with the field zeroed (UDP: 0 transmitted as 0xffff).
+   Corollary of C09_update_checksum_ipv4/_ipv6 (Checksum/ProtoProofs.v) after showing that
+   the builder calls update_checksum on exactly the header it serialises
+   (tr_ipv4_is_update / tr_ipv6_is_update, TCP options included) and the payload it appends. *)
+Theorem C10_checksums_verify : forall e c p bs,
+  cfg_wf c = true -> bytes_ok p -> build e c p = BOk bs ->
+  let seg := drop (off_transport c) bs in
+  let k := ck_field_off (c_transport c) in
+  match ck_pseudo c (len seg) with
+  | None => True
+  | Some ph =>
+      len seg = tr_header_len (c_transport c) + len p /\ off_transport c + len seg = len bs /\
+      k + 2 <= tr_header_len (c_transport c) /\
+      verifies (ph ++ seg) /\
+      W bs (off_transport c + k) = ck_value (c_transport c) (rfc1071 (ph ++ zero16_at k seg))
+  end.
+Proof. exact checksums_verify. Qed.
+Print Assumptions C10_checksums_verify.
+
+(* the transport header in the packet is the RFC layout (Checksum/ProtoSpec.v: udp_wire,
+   tcp_wire, icmp4_wire, icmp6_wire) of the configured header, followed by exactly the payload *)
+Theorem C10_transport_rfc_layout : forall e c p bs, cfg_wf c = true -> build e c p = BOk bs ->
+  match c_net c with
+  | NtArp _ => True
+  | _ =>
+    match th_of (c_transport c) (8 + len p) with
+    | None => drop (off_transport c) bs = p
+    | Some th => exists ck, ck < 65536 /\ drop (off_transport c) bs = th_wire th ck ++ p
+    end
+  end.
+Proof. exact transport_is_rfc_layout. Qed.
+Print Assumptions C10_transport_rfc_layout.
+
+(* ---- ether types and protocol numbers name the layer that follows ----
+   Ethernet II / Linux SLL protocol field, every VLAN tag, the IPv4 protocol / IPv6 next
+   header field and the first byte of every extension header (chain_at walks the
+   configured headers in wire order at their computed offsets).  The chain part needs
+   chain_pre: for write(ip_number, ..) over IPv6 the ip_number must not itself be an
+   extension header number (C12_link_write_order); for that case C10_consistent_ipv6
+   still gives the next header field of the IPv6 header. *)
+Theorem C10_next_protocol_fields : forall e c p bs, cfg_wf c = true -> build e c p = BOk bs ->
+  match c_link c with
+  | LkNone => True
+  | LkEthernet2 _ _ => W bs 12 = link_announces c
+  | LkLinuxSll pt _ _ => W bs 0 = pt /\ W bs 2 = 1 /\ W bs 14 = net_ether_type (c_net c) /\ c_vlan c = VlNone
+  end /\
+  match c_vlan c with
+  | VlNone => True
+  | VlSingle _ => W bs (off_vlan c + 2) = net_ether_type (c_net c)
+  | VlDouble _ _ => W bs (off_vlan c + 2) = 33024 /\ W bs (off_vlan c + 6) = net_ether_type (c_net c)
+  end /\
+  match c_net c with
+  | NtArp _ => True
+  | _ => chain_pre c = true ->
+         chain_at (B bs) (off_exts c) (B bs (ip_next_field_off c)) (ext_layout c) (tr_ip_number (c_transport c))
+  end.
+Proof. exact next_protocol_fields. Qed.
+Print Assumptions C10_next_protocol_fields.
+
 (* statement pinning *)
 Check (C10_size : forall e c p bs, cfg_wf c = true -> build e c p = BOk bs -> len bs = final_size c (len p)).
 Check (C10_never_panics : forall e c p s, cfg_wf c = true -> build e c p <> BPanic s).
@@ -202,3 +272,32 @@ Proof. repeat split; vm_compute; reflexivity. Qed.
 Example C10_ex_too_long : spec_outcome ex_cfg 65508 = OErr (EPayloadLen 65516 65515 VtIpv4PayloadLength)
   /\ spec_outcome ex_cfg 65507 = OOk.
 Proof. split; vm_compute; reflexivity. Qed.
+
+(* TCP with options over IPv6 behind two VLAN tags and a hop-by-hop + fragment header chain:
+   the hypotheses of C10_checksums_verify / C10_next_protocol_fields are satisfiable, the
+   statements are not vacuous (ck_pseudo = Some, chain of two headers) *)
+Definition ex_tcp : Tcp.TcpHeader :=
+  {| Tcp.source_port := 80; Tcp.destination_port := 40000; Tcp.sequence_number := 305419896;
+     Tcp.acknowledgment_number := 2271560481; Tcp.ns := true; Tcp.fin := false; Tcp.syn := true;
+     Tcp.rst := false; Tcp.psh := true; Tcp.ack := true; Tcp.urg := false; Tcp.ece := true; Tcp.cwr := false;
+     Tcp.window_size := 65535; Tcp.checksum := 0; Tcp.urgent_pointer := 7;
+     Tcp.options := {| Tcp.o_len := 4; Tcp.o_buf := [2; 4; 5; 180] ++ repeat 0 36 |} |}.
+Definition ex_ip6 : BitFields.Model.Ipv6Header :=
+  BitFields.Model.mkIpv6 5 74565 0 0 64 [32;1;13;184;0;0;0;0;0;0;0;0;0;0;0;1] [254;128;0;0;0;0;0;0;2;0;0;255;254;0;0;9].
+Definition ex_exts6 : ExtChain.Model.Exts6 :=
+  ExtChain.Model.mkExts6 (Some (ExtChain.Model.mkRaw 0 0 [1; 4; 0; 0; 0; 0])) None None
+                         (Some (ExtChain.Model.mkFrag 0 0 false 99)) None.
+Definition ex_cfg_tcp6 : cfg :=
+  mkCfg (c_link ex_cfg) (VlDouble (BitFields.Model.mkVlan 1 false 100 0) (BitFields.Model.mkVlan 2 true 200 0))
+        (NtIpv6 ex_ip6 ex_exts6) (TrTcp ex_tcp).
+Example C10_ex_tcp6 :
+  cfg_wf ex_cfg_tcp6 = true /\ chain_pre ex_cfg_tcp6 = true /\
+  ext_layout ex_cfg_tcp6 = [(ExtChain.Spec.KHopByHop, 8); (ExtChain.Spec.KFragment, 8)] /\
+  exists bs, build LE ex_cfg_tcp6 [1; 2; 3] = BOk bs /\ len bs = 105 /\
+    ck_pseudo ex_cfg_tcp6 27 = Some (pseudo6 (BitFields.Model.v6_source ex_ip6) (BitFields.Model.v6_destination ex_ip6) 27 6) /\
+    verifies (pseudo6 (BitFields.Model.v6_source ex_ip6) (BitFields.Model.v6_destination ex_ip6) 27 6 ++ drop 78 bs) /\
+    W bs 12 = 34984 /\ W bs 16 = 33024 /\ W bs 20 = 34525 /\ B bs 28 = 0 /\ B bs 62 = 44 /\ B bs 70 = 6.
+Proof.
+  split; [vm_compute; reflexivity|]. split; [vm_compute; reflexivity|]. split; [vm_compute; reflexivity|].
+  eexists. split; [vm_compute; reflexivity|]. vm_compute. repeat split; reflexivity.
+Qed.
